@@ -168,4 +168,60 @@ def actPositions (act : Act) : List (Nat × Nat × Nat) :=
 def actMultiplicity (play : Play) (rp : Repeat) (passes : Nat) (j : Nat) : Nat :=
   if rp.fromAct > 0 && j + 1 ≥ rp.fromAct then passes else 1
 
+/-! ## Helper definitions for the theorems (they do not change what the functions above compute) -/
+
+/-- the act occurrences of `loop`, in order: (act occurrence, act index, start time `t0`).
+Same control flow as `loop`; only what is returned differs. -/
+def actOccs (env : Env) (play : Play) (rp : Repeat) : Nat → Nat → Nat → Nat → Nat → List (Nat × Nat × Nat)
+  | 0, _, _, _, _ => []
+  | fuel + 1, j, ao, nrep, t =>
+    match play[j]? with
+    | none => []
+    | some act =>
+      let t0 := t + env.actJitter ao
+      let x := runScenes env ao j t0 0 t0 act
+      if !x.2.2 then [(ao, j, t0)]
+      else
+        if rp.fromAct > 0 && j + 1 == play.length then
+          let stopCount := rp.count > 0 && (nrep + 1 : Int) ≥ rp.count
+          let stopTime := rp.hasTimeout && env.timedOut nrep
+          if stopCount || stopTime then [(ao, j, t0)]
+          else (ao, j, t0) :: actOccs env play rp fuel (rp.fromAct - 1) (ao + 1) (nrep + 1) x.2.1
+        else (ao, j, t0) :: actOccs env play rp fuel (j + 1) (ao + 1) nrep x.2.1
+
+/-- start time recorded for act occurrence `ao` in a list of occurrences (0 if absent) -/
+def startIn (occs : List (Nat × Nat × Nat)) (ao : Nat) : Nat :=
+  match occs.find? (fun o => o.1 == ao) with
+  | some o => o.2.2
+  | none => 0
+
+/-- the occurrences of a whole performance -/
+def performOccs (env : Env) (play : Play) (rp : Repeat) (fuel : Nat) : List (Nat × Nat × Nat) :=
+  actOccs env play rp fuel 0 0 0 0
+
+/-- `actStart` (the `t0` of `loop`) of act occurrence `ao` -/
+def actStartOf (env : Env) (play : Play) (rp : Repeat) (fuel : Nat) (ao : Nat) : Nat :=
+  startIn (performOccs env play rp fuel) ao
+
+/-- the act indices in execution order of a play that runs to its end in `passes` passes
+(`passes - 1` jumps back to act `fromAct`) -/
+def expectedActs (play : Play) (rp : Repeat) (passes : Nat) : List Nat :=
+  List.range' 0 play.length ++
+    (if rp.fromAct > 0 then
+      (List.replicate (passes - 1)
+        (List.range' (rp.fromAct - 1) (play.length - (rp.fromAct - 1)))).flatten
+     else [])
+
+/-- positions performed when the acts `acts` are played one after the other, the first one being
+act occurrence `ao` -/
+def expectedFrom (play : Play) : List Nat → Nat → List Pos
+  | [], _ => []
+  | j :: rest, ao =>
+    (actPositions (play[j]?.getD [])).map (fun p => (⟨ao, j, p.1, p.2.1, p.2.2⟩ : Pos)) ++
+      expectedFrom play rest (ao + 1)
+
+/-- the positions, in execution order, of a play that runs to its end in `passes` passes -/
+def expectedTrace (play : Play) (rp : Repeat) (passes : Nat) : List Pos :=
+  expectedFrom play (expectedActs play rp passes) 0
+
 end Shk.Prompt
